@@ -1,8 +1,10 @@
 import SmtpV.Props.DataMonitor
+import SmtpV.Proofs.SizeLimit
 /-!
 # C06 — MaxMessageBytes bounds what a backend is handed and what is accepted (DATA reader part)
 
-BDAT accounting and the SIZE parameter are in Props/C06Conv.lean.
+The over-limit BDAT chunk and the declared SIZE follow below, on the server model (`Proofs/BdatLimit.lean`, `SizeLimit.lean`);
+the accounting across several chunks is decided by monitors and the correspondence.
 -/
 namespace SmtpV.Props.C06
 open SmtpV SmtpV.Spec SmtpV.DataReader
@@ -49,5 +51,28 @@ example :
     ((readSched (freshReader (some 4)) s [2, 2, 2, 2]).1.map Prod.snd = [.more, .more, .tooLarge]) ∧
     ((readSched (freshReader (some 9)) s [9, 9]).1.map Prod.snd = [.eof]) := by
   decide +kernel
+
+/-! ### BDAT and SIZE on the server model -/
+open SmtpV.Server SmtpV.Text
+
+/-- **C06_chunk_over_limit.**  A well-formed `BDAT size [LAST]` inside a transaction whose size would take the message over
+    the limit: no delivery is handed a single octet, no end of file is recorded, and the transaction is gone (no sender,
+    no recipients, no open transfer) — the command's only other effects are the 552 reply and skipping the payload. -/
+theorem C06_chunk_over_limit (s : S) (arg a0 : Bytes) (more : List Bytes) (size : Nat)
+    (hf : fields arg = a0 :: more) (hsz : parseUintDec a0 32 = some size) (hm : more.length ≤ 1)
+    (henv : s.c.fromReceived = true ∧ s.c.recipients.isEmpty = false) (hlast : bdatLastBad more = false)
+    (hover : s.cfg.maxMsg ≠ 0 ∧ s.c.bytesReceived + size > s.cfg.maxMsg) :
+    handleBdat s arg = (resetConn (discardChunkN (reply s 552 ⟨5, 3, 4⟩ "Max message size exceeded") (some size)), false) ∧
+    SameOctets s (handleBdat s arg).1 ∧ NoNewEof s (handleBdat s arg).1 ∧
+    (handleBdat s arg).1.c.fromReceived = false ∧ (handleBdat s arg).1.c.recipients = [] ∧ (handleBdat s arg).1.c.bdat = none :=
+  ⟨handleBdat_over_limit s arg a0 more size hf hsz hm henv hlast hover,
+   handleBdat_over_limit_effect s arg a0 more size hf hsz hm henv hlast hover⟩
+
+/-- **C06_declared_size_refused.**  A MAIL parameter `SIZE=n` with `n` above the limit makes the parameter switch refuse
+    with 552, whatever follows — `handleMail` then answers and returns without calling the backend. -/
+theorem C06_declared_size_refused (cfg : Cfg) (rest : List (Bytes × Bytes)) (o : MailOpts) (bm : Bool) (n : Nat)
+    (h : n < 2 ^ 32) (hm : cfg.maxMsg > 0 ∧ n > cfg.maxMsg) :
+    Server.mailParams cfg (("SIZE".b, natToDec n) :: rest) o bm = .refuse 552 ⟨5, 3, 4⟩ "Max message size exceeded" :=
+  mailParams_size_over cfg rest o bm n h hm
 
 end SmtpV.Props.C06
